@@ -1,1 +1,29 @@
-From JP Require Import Base.Json.
+(* C12 - str(query) is a faithful canonical form: it reparses to the same query.
+
+   Full statement (NOT proved; round trip, idempotence and grammar membership of the text are decided on every
+   generated query against the real code, and the text is compared with Model/Serialize.v):
+     C12_roundtrip  : forall cfg q, compiled cfg q -> lits_exact q ->
+                      exists q', m_compile cfg (m_str q) = Ok q' /\ same_modulo_default_step q' q
+     C12_idempotent : m_str q' = m_str q *)
+From JP Require Import Base.Json Model.Ast Model.Serialize Spec.NormPath Proofs.SerializeProofs.
+
+(* names and string literals appear in the RFC's canonical single-quoted form, with only the mandated escapes *)
+Theorem C12_quotes_canonical : forall s,
+  sel_str (SName s) = norm_name s /\ expr_str (ELit (JStr s)) = norm_name s /\ canon_str (ELit (JStr s)) 1 = norm_name s.
+Proof. intros s. repeat split; apply canonical_string_is_norm_name. Qed.
+Print Assumptions C12_quotes_canonical.
+
+(* parentheses are kept wherever dropping them would change the grouping: the serializer's decision table *)
+Theorem C12_parentheses : forall a b c o x y,
+  (* || under && *)  canon_str (EAnd (EOr a b) c) 1 = paren (canon_str a 3 ++ [32; 124; 124; 32]%N ++ canon_str b 3) ++ [32; 38; 38; 32]%N ++ canon_str c 4 /\
+  (* comparison under ! *) canon_str (ENot (ECmp o x y)) 1 = 33%N :: paren (expr_str x ++ [32%N] ++ op_str o ++ [32%N] ++ expr_str y) /\
+  (* ! under ! *) canon_str (ENot (ENot a)) 1 = 33%N :: paren (33%N :: canon_str a 7) /\
+  (* && under || needs none *) canon_str (EOr (EAnd a b) c) 1 = (canon_str a 4 ++ [32; 38; 38; 32]%N ++ canon_str b 4) ++ [32; 124; 124; 32]%N ++ canon_str c 3.
+Proof. intros. repeat split; reflexivity. Qed.
+Print Assumptions C12_parentheses.
+
+Example C12_example :   (* $[?!(@.a == 1) && (@.b || $.c)] *)
+  m_str [Child [SFilter (EAnd (ENot (ECmp OEq (ERel [Child [SName [97%N]]]) (ELit (JNum (NInt 1)))))
+                              (EOr (ERel [Child [SName [98%N]]]) (EAbs [Child [SName [99%N]]])))]]
+  = [36;91;63;33;40;64;91;39;97;39;93;32;61;61;32;49;41;32;38;38;32;40;64;91;39;98;39;93;32;124;124;32;36;91;39;99;39;93;41;93]%N.
+Proof. vm_compute. reflexivity. Qed.
